@@ -101,9 +101,15 @@ UNIT_TRUSTED["packet_aspath"] = [
     "as_path_prepend additionally requires len + 6 <= usize::MAX (Vec::with_capacity argument)",
 ]
 
+UNIT_TRUSTED["packet_encode"] = [
+    "prelude p_encode: the generic destination `B: BufMut + AsMut<[u8]>` is an append-only byte sequence (p_bytes) whose length `dst.as_mut().len()` reads (R11 helper vx_buf_len, a slice length <= isize::MAX) and whose bytes `(&mut dst.as_mut()[pos..]).write_u16(..)` overwrites in place (vx_buf_patch_u16, `requires pos + 2 <= len`); `put_bytes(0, n)` appends n zeros; Vec<u8> as BufMut appends to the vector",
+    "Nlri::encode and the per-family NLRI encoders are NOT under contract: `item.nlri.encode(dst).unwrap()` appends nlri_wire(nlri), an uninterpreted byte string assumed non-empty and shorter than 64 KiB and assumed not to fail; Nexthop::to_bytes = 4 / 16 / 32 octets; Family::afi / safi uninterpreted; PathNlri opaque (path_id through an accessor shim); FnvHashMap obeys vstd's map model (fnv / Family key axioms)",
+    "NOT covered: do_encode (the message header and its length field, the OPEN capability block — `cap_len` is summed in a u8 —, the classic IPv4 NLRI / withdrawn sections, the attribute-length accumulation in a u16), encode_to's chunking loop, 2-byte AS down-conversion, and the round trip through the peer's decoder",
+]
+
 # minimum number of functions that must produce obligations / of must-fail twins that must run
-FLOORS = {"daemon_fsm": 30, "daemon_gr": 4, "daemon_peer_tx": 7, "table_cmp": 20, "packet_validate": 1, "packet_parse": 1, "table_rpki": 3, "table_policy": 6, "daemon_export": 11, "packet_bmp": 6, "packet_mrt": 8, "packet_aspath": 8}
-TWIN_FLOORS = {"daemon_fsm": 8, "daemon_gr": 3, "daemon_peer_tx": 2, "table_cmp": 4, "packet_validate": 1, "packet_parse": 1, "table_rpki": 1, "table_policy": 1, "daemon_export": 1, "packet_bmp": 1, "packet_mrt": 1, "packet_aspath": 1}
+FLOORS = {"daemon_fsm": 30, "daemon_gr": 4, "daemon_peer_tx": 7, "table_cmp": 20, "packet_validate": 1, "packet_parse": 1, "table_rpki": 3, "table_policy": 6, "daemon_export": 11, "packet_bmp": 6, "packet_mrt": 8, "packet_aspath": 8, "packet_encode": 3}
+TWIN_FLOORS = {"daemon_fsm": 8, "daemon_gr": 3, "daemon_peer_tx": 2, "table_cmp": 4, "packet_validate": 1, "packet_parse": 1, "table_rpki": 1, "table_policy": 1, "daemon_export": 1, "packet_bmp": 1, "packet_mrt": 1, "packet_aspath": 1, "packet_encode": 1}
 
 PLAN = {
     "C01": {"verus": ["daemon_peer_tx", "daemon_export"], "level": "proof",
@@ -121,6 +127,7 @@ PLAN = {
     "C12": {"verus": ["table_rpki"], "kani": ["c12_covering_key_v4", "c12_covering_key_v6"], "level": "proof"},
     "C14": {"verus": ["table_policy"], "level": "proof"},
     "C16": {"verus": ["daemon_fsm"], "kani": ["c16_ipnet_contains_v4", "c16_ipnet_contains_v6"], "level": "proof"},
+    "C04": {"verus": ["packet_encode"], "level": "proof"},
     "C02": {"verus": ["table_cmp", "packet_aspath"], "level": "proof",
             "fn_filter": {"packet_aspath": ["as_path_length"]}},
     "C19": {"verus": ["packet_bmp", "packet_mrt"], "level": "proof"},
